@@ -29,7 +29,7 @@ ENGINE = "E2-netsim"
 TECHNIQUE = "runtime monitoring: relational oracle, whole delivery vs split delivery of the same stream on the real HTTPChannel"
 RULE = ("request streams from the refhttp grammar (valid pipelines with Content-Length/chunked bodies, Expect: 100-continue, "
         "obs-fold, extra blank lines; hostile framing knobs; byte-level mutations; truncations) plus header blocks sized "
-        "around totalHeadersSize/maxHeaders/MAX_LENGTH; each stream is delivered whole and then under every 1-cut split "
+        "around totalHeadersSize/maxHeaders/MAX_LENGTH and chunk-size lines of 1021..1026 bytes (cuts at every offset around their CRLF); each stream is delivered whole and then under every 1-cut split "
         "(streams <= 300 bytes), all or sampled 2-cut splits, byte-at-a-time and random k-splits, with deferred answers "
         "finished at random schedule points.  A case is distinct by (configuration, stream, split); non-trivial = the "
         "whole-delivery run handed at least one request to the application or produced output.")
@@ -38,7 +38,7 @@ ASSUMPTIONS = ["trusted base: netsim.SimTransport models a TCP transport (stops 
                "Site configuration: the Date header value is masked because twisted.web.server takes it from the wall clock"]
 SHARDS = {"quick": 4, "thorough": 16}
 FLOORS = {"split_runs_compared": 2000, "requests_compared": 2000, "streams_with_400": 20, "streams_with_deferred_answer": 20,
-          "streams_with_100_continue": 5, "limit_streams": 10}
+          "streams_with_100_continue": 5, "limit_streams": 10, "limit_streams_chunkline": 3}
 READY = True
 
 
@@ -259,16 +259,54 @@ def compare(ctx, config, stream, whole, pieces, finish_points, how, nontrivial=T
     return False
 
 
-def limit_stream(rng):
-    """Header blocks sized around totalHeadersSize (16384), maxHeaders (500), MAX_LENGTH (16384)."""
-    kind = rng.choice(["total", "count", "line", "reqline"])
+LIMIT_KINDS = ["total", "count", "line", "reqline", "chunkline"]
+
+
+def chunkline_stream(rng):
+    """Chunk-size lines (size + extension padding) around maxChunkSizeLineLength (1024): a request whose
+    lines are 1021, 1022 and 1023 bytes long (all acceptable), then either a request with a line of
+    1024..1026 bytes (refused) or a plain request.
+    -> (stream, description, offsets just before / inside / after every such line's CRLF)"""
+    head = b"POST /big HTTP/1.1\r\nHost: h\r\nTransfer-Encoding: chunked\r\n\r\n"
+    lengths = [1021, 1022, 1023]
+    if rng.random() < 0.3:
+        rng.shuffle(lengths)
+    body = bytearray(head)
+    marks = []
+
+    def line(prefix, L):
+        nonlocal body
+        body += prefix + rng.choice([b"e", b"\xe9", b" "]) * (L - len(prefix))
+        marks.extend([len(body) - 1, len(body), len(body) + 1, len(body) + 2])
+        body += b"\r\n"
+
+    for L in lengths:
+        line(b"5;x=", L)
+        body += b"hello\r\n"
+    line(b"0;y=", rng.choice([1021, 1022, 1023]))
+    body += b"\r\n"
+    over = rng.choice([None, 1024, 1025, 1026])
+    if over is not None:
+        body += b"POST /over HTTP/1.1\r\nHost: h\r\nTransfer-Encoding: chunked\r\n\r\n"
+        line(b"5;x=", over)
+        body += b"hello\r\n0\r\n\r\n"
+    body += b"GET /after HTTP/1.1\r\nHost: h\r\n\r\n" if rng.random() < 0.7 else b""
+    return bytes(body), "chunkline" + "-".join(map(str, lengths + [over or 0])), marks
+
+
+def limit_stream(rng, kind=None):
+    """Header blocks sized around totalHeadersSize (16384), maxHeaders (500), MAX_LENGTH (16384); chunk-size
+    lines around maxChunkSizeLineLength (1024).  -> (stream, description, extra cut offsets)"""
+    kind = kind or rng.choice(LIMIT_KINDS)
+    if kind == "chunkline":
+        return chunkline_stream(rng)
     tail = b"GET /after HTTP/1.1\r\nHost: h\r\n\r\n" if rng.random() < 0.7 else b""
     rl = b"GET /big HTTP/1.1"
     stream, d = _limit_stream(rng, kind, rl, tail)
     if rng.random() < 0.4:  # a small pipelined request first: limits are per request, not per connection/delivery
         stream = b"POST /before HTTP/1.1\r\nHost: h\r\nContent-Length: 3\r\n\r\nabc" + stream
         d = "pipelined-" + d
-    return stream, d
+    return stream, d, []
 
 
 def _limit_stream(rng, kind, rl, tail):
@@ -294,7 +332,7 @@ def _limit_stream(rng, kind, rl, tail):
     return b"GET /" + b"c" * (16384 + d - 14) + b" HTTP/1.1\r\nHost: h\r\n\r\n" + tail, "reqline%+d" % d
 
 
-def split_plans(ctx, rng, stream):
+def split_plans(ctx, rng, stream, extra_marks=()):
     """Yield (pieces, how) for one stream."""
     n = len(stream)
     if n < 2:
@@ -319,6 +357,7 @@ def split_plans(ctx, rng, stream):
             yield netsim.random_split(rng, stream, max_piece=4096), "random"
         # cuts around every CRLF-ish boundary near the end and around the 16 KiB marks
         marks = [i for i in (16384, 16385, 16386, 16387, 16400, n - 1, n - 2, n - 3, n - 34, n - 35) if 0 < i < n]
+        marks += [i for i in extra_marks if 0 < i < n]
         for m in marks:
             yield [stream[:m], stream[m:]], "1cut-mark"
         for _ in range(4):
@@ -327,7 +366,7 @@ def split_plans(ctx, rng, stream):
                 yield [stream[:a], stream[a:b], stream[b:]], "2cut-mark"
 
 
-def check_stream(ctx, rng, config, stream, desc):
+def check_stream(ctx, rng, config, stream, desc, extra_marks=()):
     whole = run_delivery(config, [stream])
     ctx.evaluated()
     if whole["stuck"]:
@@ -347,7 +386,7 @@ def check_stream(ctx, rng, config, stream, desc):
         ctx.count("streams_without_effect")
     nontrivial = bool(whole["requests"] or whole["output"])
     k = 0
-    for pieces, how in split_plans(ctx, rng, stream):
+    for pieces, how in split_plans(ctx, rng, stream, extra_marks):
         fps = ()
         if whole["n_deferred"] and rng.random() < 0.7:
             fps = set(rng.sample(range(len(pieces)), min(len(pieces), rng.randint(1, 3))))
@@ -367,10 +406,13 @@ def run(ctx):
         rng = ctx.case_rng(i)
         config = "site" if i % 5 == 4 else "channel"
         if i % 20 == 7:
-            stream, d = limit_stream(rng)
+            kind = LIMIT_KINDS[(i // 20) % len(LIMIT_KINDS)]
+            stream, d, marks = limit_stream(rng, kind)
             desc = ["limit:" + d]
             ctx.count("limit_streams")
+            ctx.count("limit_streams_" + kind)
         else:
+            marks = ()
             stream, desc = refhttp.gen_stream(rng, "mixed", max_requests=4)
             if rng.random() < 0.15:
                 stream = refhttp.mutate_bytes(rng, stream)
@@ -379,7 +421,7 @@ def run(ctx):
         ctx.count("stream_bytes", len(stream))
         for d in desc:
             ctx.seen("stream_kinds", d.split(":")[0])
-        check_stream(ctx, rng, config, stream, desc)
+        check_stream(ctx, rng, config, stream, desc, marks)
 
 
 def _unb(x):
